@@ -2,7 +2,11 @@
 
     python -m checks._c11_worker asyncio|twisted          JSON lines on stdin/stdout
 
-A request is a workload ``{"threads": [[size, ...], ...], "transport": "unix"|"tcp", "barrier": bool}``.
+A request is a workload ``{"threads": [[size, ...], ...], "transport": "unix"|"tcp", "barrier": bool,
+"loop": [bool per thread], "pace_ms": [ms per thread], "reader": {burst, pause_ms, slow_bytes, rcvbuf, sndbuf}}``:
+a thread flagged in "loop" does not call push() itself but has the reactor thread call it (the way response
+callbacks push follow-up requests); "reader" throttles the peer and shrinks the socket buffers so that the
+reactor's send is suspended in the middle of messages.
 For each workload the worker opens a fresh local listener that only reads, brings up ONE connection of
 the reactor's Connection class (sub-classed only so that no OPTIONS/STARTUP handshake is attempted),
 lets N threads ``push()`` their messages, and judges the byte stream that arrived at the listener.
@@ -131,7 +135,12 @@ def judge_stream(threads, stream, buf_size=4096):
 # ----------------------------------------------------------------------------------------------------
 
 class Listener(object):
-    def __init__(self, transport, tmpdir, n):
+    def __init__(self, transport, tmpdir, n, reader=None):
+        # reader: None/{} = read as fast as possible; {"burst": bytes per recv, "pause_ms": sleep between recvs,
+        # "slow_bytes": throttle only the first N bytes, "rcvbuf": SO_RCVBUF}.  A throttled reader creates
+        # back-pressure (the reactor's send is suspended mid-message); it only shapes the schedule, the
+        # verdict never looks at a clock.
+        self.reader = reader or {}
         self.buf = bytearray()
         self.lock = threading.Lock()
         self.eof = threading.Event()
@@ -147,6 +156,8 @@ class Listener(object):
             self.sock = socket.socket(socket.AF_INET, socket.SOCK_STREAM)
             self.sock.bind(("127.0.0.1", 0))
             self.address = self.sock.getsockname()
+        if self.reader.get("rcvbuf"):
+            self.sock.setsockopt(socket.SOL_SOCKET, socket.SO_RCVBUF, int(self.reader["rcvbuf"]))   # inherited by accept()
         self.sock.listen(1)
         self.thread = threading.Thread(target=self._run, name="c11-listener", daemon=True)
         self.thread.start()
@@ -157,12 +168,20 @@ class Listener(object):
             conn, _ = self.sock.accept()
             self.accepted.set()
             conn.settimeout(None)
+            burst = int(self.reader.get("burst") or 0)
+            pause = float(self.reader.get("pause_ms") or 0) / 1000.0
+            slow_bytes = int(self.reader.get("slow_bytes") or 0)
+            got = 0
             while True:
-                data = conn.recv(1 << 18)
+                slow = burst > 0 and got < slow_bytes
+                data = conn.recv(burst if slow else 1 << 18)
                 if not data:
                     break
+                got += len(data)
                 with self.lock:
                     self.buf += data
+                if slow and pause:
+                    time.sleep(pause)
             conn.close()
         except Exception as e:  # noqa
             self.error = "%s: %s" % (type(e).__name__, e)
@@ -206,13 +225,18 @@ class AsyncioSide(object):
         Conn.initialize_reactor()
         self.loop = Conn._loop
 
-    def connect(self, listener, transport):
+    def connect(self, listener, transport, sndbuf=None):
         from cassandra.connection import DefaultEndPoint, UnixSocketEndPoint
         ep = UnixSocketEndPoint(listener.address) if transport == "unix" else DefaultEndPoint(*listener.address)
-        conn = self.cls(ep, connect_timeout=LIMIT)
+        sockopts = [(socket.SOL_SOCKET, socket.SO_SNDBUF, int(sndbuf))] if sndbuf else None
+        conn = self.cls(ep, connect_timeout=LIMIT, sockopts=sockopts)
         if not conn.connected_event.wait(LIMIT):
             return None
         return conn
+
+    def on_loop(self, fn):
+        """run fn on the reactor's own thread (where response callbacks run), FIFO with earlier calls"""
+        self.loop.call_soon_threadsafe(fn)
 
     def probe(self, conn):
         import asyncio
@@ -258,18 +282,30 @@ class TwistedSide(object):
         self.cls = Conn
         Conn.initialize_reactor()
 
-    def connect(self, listener, transport):
+    def connect(self, listener, transport, sndbuf=None):
         from cassandra.connection import DefaultEndPoint
         conn = self.cls(DefaultEndPoint(*listener.address), connect_timeout=LIMIT)
         if not conn.connected_event.wait(LIMIT):
             return None
+        if sndbuf:
+            self._in_reactor(lambda: conn.transport.getHandle().setsockopt(socket.SOL_SOCKET, socket.SO_SNDBUF, int(sndbuf)))
         return conn
 
-    def _in_reactor(self, fn, timeout=10):
+    def on_loop(self, fn):
+        from twisted.internet import reactor
+        reactor.callFromThread(fn)
+
+    def _in_reactor(self, fn, timeout=10, hops=1):
+        """run fn in the reactor thread after `hops` trips through the callFromThread queue.  A push() made
+        ON the reactor thread re-queues its transport.write with callFromThread, i.e. behind a probe that was
+        queued earlier; every extra hop puts the probe behind one more level of such re-queueing."""
         from twisted.internet import reactor
         box, done = {}, threading.Event()
 
-        def run():
+        def run(left=hops):
+            if left > 1:
+                reactor.callFromThread(run, left - 1)
+                return
             try:
                 box["v"] = fn()
             except Exception as e:  # noqa
@@ -288,8 +324,9 @@ class TwistedSide(object):
             pending = max(0, len(tr.dataBuffer) - tr.offset) + sum(len(x) for x in tr._tempDataBuffer)
             return {"pending": pending, "connected": bool(tr.connected), "disconnecting": bool(tr.disconnecting)}
         try:
-            # callFromThread is FIFO: when this runs, every callFromThread issued by the (joined) writers has run
-            st = self._in_reactor(inspect)
+            # callFromThread is FIFO: when this runs, every callFromThread issued by the (joined) writers has run,
+            # and so has everything those calls queued in turn (4 levels deep; the driver uses 1)
+            st = self._in_reactor(inspect, hops=4)
         except Exception as e:
             return {"idle": False, "error": type(e).__name__}
         st["idle"] = st["pending"] == 0
@@ -310,10 +347,13 @@ def run_workload(side, case, tmpdir, n):
     transport = case.get("transport", "tcp") if side.name == "asyncio" else "tcp"
     msgs = [[make_message(t, s, size) for s, size in enumerate(sizes)] for t, sizes in enumerate(threads)]
     expected = sum(len(m) for ms in msgs for m in ms)
-    listener = Listener(transport, tmpdir, n)
+    reader = case.get("reader") or {}
+    on_loop = case.get("loop") or []            # per thread: pushes are issued ON the reactor thread
+    pace = case.get("pace_ms") or []            # per thread: pause between pushes (shapes the schedule only)
+    listener = Listener(transport, tmpdir, n, reader)
     out = {"status": "?", "expected": expected, "received": 0, "problems": [], "push_errors": []}
     try:
-        conn = side.connect(listener, transport)
+        conn = side.connect(listener, transport, reader.get("sndbuf"))
     except Exception as e:
         out["status"] = "no-connection"
         out["detail"] = "%s: %s" % (type(e).__name__, e)
@@ -336,9 +376,23 @@ def run_workload(side, case, tmpdir, n):
             except threading.BrokenBarrierError:
                 harness_trouble.append("barrier")
                 return
+        loop_pusher = t < len(on_loop) and bool(on_loop[t])
+        delay = (float(pace[t]) if t < len(pace) and pace[t] else 0.0) / 1000.0
+
+        def push_on_loop(m):
+            try:
+                conn.push(m)
+            except Exception as e:  # noqa
+                errors.append([t, type(e).__name__, str(e)[:200]])
         try:
             for m in msgs[t]:
-                conn.push(m)
+                if loop_pusher:
+                    # as a response callback would: push() is called by the reactor thread itself
+                    side.on_loop(lambda m=m: push_on_loop(m))
+                else:
+                    conn.push(m)
+                if delay:
+                    time.sleep(delay)
         except Exception as e:  # noqa
             errors.append([t, type(e).__name__, str(e)[:200]])
 
